@@ -1389,7 +1389,7 @@ func init() {
 			"lookups under fire: 2 goroutines overwriting their own name with 1,500 versioned decorations while 4 look the names up, each result checked against the versions whose registration had returned / could have started, " +
 			"and after the join every route must see the last version), and three unstamped passes for the race detector (the last two registering fresh names, every listing checked for the names that were there when the pass began); " +
 			"every listing the library returns is overwritten, extended within its capacity and reversed after it was recorded; " +
-			"name worlds (round 6): names of every length 0-130 (thorough 0-300) and 2^k-1, 2^k, 2^k+1 up to 2^12 (thorough 2^16) bytes, ten lengths per world, over four alphabets (one repeated letter: the names are prefixes of each other; arbitrary bytes; ASCII words; UTF-8 cut anywhere), " +
+			"name worlds (round 6): names of every length 0-130 (thorough 0-300) and 2^k-1, 2^k, 2^k+1 up to 2^12 (thorough 2^14) bytes, ten lengths per world, over four alphabets (one repeated letter: the names are prefixes of each other; arbitrary bytes; ASCII words; UTF-8 cut anywhere), " +
 			"each looked up and selected through every route before and after its registration, with the names that resemble it (same length with the first/middle/last byte changed, one byte longer, one shorter), overwritten, listed and read back; long names also in every other concurrent world and in the passes under fire; " +
 			"'vary' worlds (every other concurrent world, every fourth random history, every third name world): each table has a content of its own (2-4 columns, 1-3 rows, widths 1-251, a function of pass, goroutine and table number), outputs named after the join by the direct rendering of the same content; " +
 			"every concurrent world also has a pass 'renders by name under fire' (6 goroutines x 14 tables of their own, selected by every registered name and an unregistered one through SetDecorationNamed / auto.New / auto.Wrap, rendered twice, nobody registering, no synchronisation in the harness; every output judged after the join against the direct rendering with the decoration the name held); " +
